@@ -106,6 +106,9 @@ pub enum ConcatHow {
   /// children that are themselves Concat are passed as typed `ConcatSource`
   /// values (and therefore flattened)
   NestedTyped,
+  /// like `NestedTyped`, but the value is observed (size, source, hash, ==)
+  /// after every `add`: a value under construction that is already in use
+  AddObserved,
 }
 
 #[derive(Clone, Debug, Serialize, Deserialize, PartialEq, Eq, Hash)]
@@ -214,6 +217,9 @@ impl TreeSpec {
 /// thread *inside* a composite's call into its child (e.g. inside
 /// `CachedSource::map`'s check-then-insert window or while
 /// `CachedSource::stream_chunks` holds its shard lock).
+/// `UserSrc::id` bit that makes the source renumber its sources / names.
+pub const PERMUTE_BIT: u32 = 0x4000;
+
 #[derive(Clone, Debug)]
 pub struct UserSrc {
   pub inner: BoxSource,
@@ -235,7 +241,37 @@ impl Source for UserSrc {
   }
   fn map(&self, options: &MapOptions) -> Option<SourceMap> {
     user_point("user.map.enter");
-    let m = self.inner.map(options);
+    let m = if self.id & PERMUTE_BIT != 0 {
+      // consistent with its own (renumbered) stream
+      let mut sources: Vec<String> = vec![];
+      let mut contents: Vec<String> = vec![];
+      let mut names: Vec<String> = vec![];
+      let mut mappings = vec![];
+      self.stream_chunks(
+        options,
+        &mut |_, mapping| mappings.push(mapping),
+        &mut |i, name, content| {
+          let i = i as usize;
+          if sources.len() <= i {
+            sources.resize(i + 1, String::new());
+            contents.resize(i + 1, String::new());
+          }
+          sources[i] = name.to_string();
+          contents[i] = content.map(|c| c.to_string()).unwrap_or_default();
+        },
+        &mut |i, name| {
+          let i = i as usize;
+          if names.len() <= i {
+            names.resize(i + 1, String::new());
+          }
+          names[i] = name.to_string();
+        },
+      );
+      let encoded = rspack_sources::encode_mappings(mappings.into_iter());
+      (!encoded.is_empty()).then(|| SourceMap::new(encoded, sources, contents, names))
+    } else {
+      self.inner.map(options)
+    };
     user_point("user.map.exit");
     m
   }
@@ -253,15 +289,37 @@ impl StreamChunks for UserSrc {
     on_name: OnName<'_, 'a>,
   ) -> GeneratedInfo {
     user_point("user.stream.enter");
-    let info = self.inner.stream_chunks(
-      options,
-      &mut |chunk, mapping| {
-        user_point("user.stream.chunk");
-        on_chunk(chunk, mapping)
-      },
-      on_source,
-      on_name,
-    );
+    // ids with this bit set renumber their sources and names (i -> i ^ 1): a
+    // user-defined source may number and announce them in any order, e.g.
+    // index 1 before index 0, or leave index 0 unused
+    let permute = self.id & PERMUTE_BIT != 0;
+    let info = if permute {
+      self.inner.stream_chunks(
+        options,
+        &mut |chunk, mut mapping| {
+          user_point("user.stream.chunk");
+          if let Some(o) = mapping.original.as_mut() {
+            o.source_index ^= 1;
+            if let Some(n) = o.name_index.as_mut() {
+              *n ^= 1;
+            }
+          }
+          on_chunk(chunk, mapping)
+        },
+        &mut |i, name, content| on_source(i ^ 1, name, content),
+        &mut |i, name| on_name(i ^ 1, name),
+      )
+    } else {
+      self.inner.stream_chunks(
+        options,
+        &mut |chunk, mapping| {
+          user_point("user.stream.chunk");
+          on_chunk(chunk, mapping)
+        },
+        on_source,
+        on_name,
+      )
+    };
     user_point("user.stream.exit");
     info
   }
@@ -292,6 +350,11 @@ impl Eq for UserSrc {}
 #[derive(Default)]
 pub struct Builder {
   caches: BTreeMap<u32, CachedSource<BoxSource>>,
+  /// maps interned by their four buffers: specs that differ only in file /
+  /// sourceRoot / debugId are built as *clones* of one map with the field set
+  /// afterwards (`let mut m = src.map(); m.set_file(..)`), so they share their
+  /// `Arc` buffers like maps do in a bundler
+  maps: BTreeMap<(String, Vec<String>, Vec<String>, Vec<String>), SourceMap>,
 }
 
 fn apply_calls(r: &mut ReplaceSource<BoxSource>, calls: &[ReplCall]) {
@@ -319,6 +382,32 @@ impl Builder {
     Self::default()
   }
 
+  pub fn build_map(&mut self, spec: &MapSpec) -> SourceMap {
+    let key = (
+      spec.mappings.clone(),
+      spec.sources.clone(),
+      spec.sources_content.clone(),
+      spec.names.clone(),
+    );
+    let base = self
+      .maps
+      .entry(key)
+      .or_insert_with(|| {
+        SourceMap::new(
+          spec.mappings.clone(),
+          spec.sources.clone(),
+          spec.sources_content.clone(),
+          spec.names.clone(),
+        )
+      })
+      .clone();
+    let mut m = base;
+    m.set_file(spec.file.clone());
+    m.set_source_root(spec.source_root.clone());
+    m.set_debug_id(spec.debug_id.clone());
+    m
+  }
+
   fn build_concat(&mut self, children: &[TreeSpec], how: &ConcatHow) -> ConcatSource {
     match how {
       ConcatHow::New => {
@@ -336,7 +425,8 @@ impl Builder {
         }
         concat
       }
-      ConcatHow::NestedTyped => {
+      ConcatHow::NestedTyped | ConcatHow::AddObserved => {
+        let observed = matches!(how, ConcatHow::AddObserved);
         let mut concat = ConcatSource::default();
         for c in children {
           match c {
@@ -345,6 +435,13 @@ impl Builder {
               concat.add(inner);
             }
             other => concat.add(self.build(other)),
+          }
+          if observed {
+            let _ = concat.size();
+            let _ = concat.source().len();
+            let _ = crate::exec::fx_hash(&concat);
+            #[allow(clippy::eq_op)]
+            let _ = concat == concat;
           }
         }
         concat
@@ -369,9 +466,9 @@ impl Builder {
       } => SourceMapSource::new(SourceMapSourceOptions {
         value: text.clone(),
         name: name.clone(),
-        source_map: map.build(),
+        source_map: self.build_map(map),
         original_source: inner.as_ref().and_then(|i| i.original_source.clone()),
-        inner_source_map: inner.as_ref().and_then(|i| i.inner_map.as_ref().map(|m| m.build())),
+        inner_source_map: inner.as_ref().and_then(|i| i.inner_map.as_ref().map(|m| self.build_map(m))),
         remove_original_source: inner
           .as_ref()
           .is_some_and(|i| i.remove_original_source),
@@ -387,7 +484,12 @@ impl Builder {
         match observe_at {
           Some(k) if (*k as usize) <= calls.len() => {
             apply_calls(&mut r, &calls[..*k as usize]);
+            // observe every view once (fills whatever the value memoises)
             let _ = r.source();
+            let _ = r.size();
+            let _ = r.buffer();
+            let _ = r.rope().len();
+            let _ = crate::exec::fx_hash(&r);
             apply_calls(&mut r, &calls[*k as usize..]);
           }
           _ => apply_calls(&mut r, calls),
